@@ -22,6 +22,7 @@ EXPLANATION = (
   "';' time codes, 30000/1001; (NUL) the caption to process is never dereferenced when there is none."
   " (ORD-rows) the row dictionary of a caption is read through sorted(...) wherever the order of rows matters (the tabled order-free iterations aside);"
   " (STATE-alias / STATE-global) no function of the anchored modules mutates a module- or class-level container, rebinds module / class state or mutates a mutable default argument, so a result never depends on earlier calls;"
+  " (FIN-dropframe) the frame arithmetic behind ';' time codes agrees with SMPTE ST 12-1 labels on the frame counts around every minute boundary of the first 22 minutes and the hour, for 30000/1001 and 60000/1001;"
 )
 RULE_TEXT = "per code class, per control code, per decoder-state call, per style property x caption style"
 UNDECIDED = ["everything the statement says about *what is displayed when*: pop-on flip, roll-up window depth, paint-on accumulation, cursor / backspace arithmetic, "
